@@ -698,4 +698,182 @@ theorem dagger_unitary (m : Mono) (hm : m.Unitary) : (dagger m).Unitary := by
     simp only at h
     rw [h]
 
+/-! ### associativity, identity, powers -/
+/-- `(A·B)·C = A·(B·C)`; exact guard: the rows of `C` are columns of `B` -/
+theorem mul_assoc (a b c : Mono) (hc : ∀ e ∈ c, e.1 < b.length) :
+    mul (mul a b) c = mul a (mul b c) := by
+  apply List.ext_getElem
+  · rw [mul_length, mul_length, mul_length]
+  · intro k h1 h2
+    have hk : k < c.length := by rwa [mul_length] at h1
+    rw [← at_eq_getElem _ k h1, ← at_eq_getElem _ k h2, mul_at _ _ k hk,
+      mul_at _ _ k (by rw [mul_length]; exact hk), mul_at b c k hk,
+      mul_at a b _ (hc _ (at_mem c k hk))]
+    simp only [Prod.mk.injEq, true_and]
+    omega
+
+/-- exact guards: rows of `m` below `d`, phases `< 4` (the product reduces phases mod 4) -/
+theorem mul_identity_left (m : Mono) (d : Nat) (hm : ∀ e ∈ m, e.1 < d ∧ e.2 < 4) :
+    mul (identity d) m = m := by
+  apply List.ext_getElem
+  · rw [mul_length]
+  · intro k h1 h2
+    rw [← at_eq_getElem _ k h1, mul_at _ _ k h2]
+    obtain ⟨h3, h4⟩ := hm _ (at_mem m k h2)
+    rw [identity_at d _ h3, ← at_eq_getElem m k h2]
+    simp only
+    rw [Nat.add_zero, Nat.mod_eq_of_lt h4]
+
+theorem mul_identity_right (m : Mono) (hm : ∀ e ∈ m, e.2 < 4) :
+    mul m (identity m.length) = m := by
+  apply List.ext_getElem
+  · rw [mul_length, identity_length]
+  · intro k h1 h2
+    rw [← at_eq_getElem _ k h1, mul_at _ _ k (by rw [identity_length]; exact h2),
+      identity_at _ k h2, ← at_eq_getElem m k h2]
+    have h4 := hm _ (at_mem m k h2)
+    simp only
+    rw [Nat.zero_add, Nat.mod_eq_of_lt h4]
+
+theorem npow_length (m : Mono) (k : Nat) : (npow m k).length = m.length := by
+  cases k with
+  | zero => simp [npow, identity_length]
+  | succ k => simp [npow, mul_length]
+
+theorem mul_phase_lt (a b : Mono) : ∀ e ∈ mul a b, e.2 < 4 := by
+  intro e he
+  unfold mul at he
+  obtain ⟨f, _, rfl⟩ := List.mem_map.1 he
+  exact Nat.mod_lt _ (by omega)
+
+theorem npow_phase_lt (m : Mono) (k : Nat) : ∀ e ∈ npow m k, e.2 < 4 := by
+  cases k with
+  | zero =>
+    intro e he
+    obtain ⟨c, _, rfl⟩ := List.mem_map.1 he
+    exact Nat.zero_lt_succ 3
+  | succ k => exact mul_phase_lt _ _
+
+/-- exact guard: rows of `m` in range (phases are arbitrary) -/
+theorem npow_add_of_rows (m : Mono) (hm : ∀ e ∈ m, e.1 < m.length) (a b : Nat) :
+    npow m (a + b) = mul (npow m a) (npow m b) := by
+  induction b with
+  | zero =>
+    have := mul_identity_right (npow m a) (npow_phase_lt m a)
+    rw [npow_length] at this
+    rw [Nat.add_zero, npow, this]
+  | succ b ih =>
+    rw [← Nat.add_assoc, npow, ih, npow, mul_assoc _ _ _ (by rw [npow_length]; exact hm)]
+
+theorem npow_add (m : Mono) (hm : m.Unitary) (a b : Nat) :
+    npow m (a + b) = mul (npow m a) (npow m b) := npow_add_of_rows m hm.rows a b
+
+theorem npow_unitary (m : Mono) (hm : m.Unitary) (k : Nat) : (npow m k).Unitary := by
+  induction k with
+  | zero => exact identity_unitary _
+  | succ k ih => exact mul_unitary _ _ ih hm (npow_length m k)
+
+theorem ipower_nonneg (m : Mono) (k : Nat) : ipower m k = npow m k := by
+  unfold ipower
+  rw [if_neg (by omega)]
+  rfl
+
+theorem ipower_neg (m : Mono) (k : Nat) (hk : 0 < k) : ipower m (-(k : Int)) = npow (dagger m) k := by
+  unfold ipower
+  rw [if_pos (by omega)]
+  congr 1
+  omega
+
+theorem ipower_length (m : Mono) (k : Int) : (ipower m k).length = m.length := by
+  unfold ipower
+  split
+  · rw [npow_length, dagger_length]
+  · rw [npow_length]
+
+theorem ipower_unitary (m : Mono) (hm : m.Unitary) (k : Int) : (ipower m k).Unitary := by
+  unfold ipower
+  split
+  · exact npow_unitary _ (dagger_unitary m hm) _
+  · exact npow_unitary _ hm _
+
+theorem Mono.Unitary.all {m : Mono} (hm : m.Unitary) (d : Nat) (hd : m.length = d) :
+    ∀ e ∈ m, e.1 < d ∧ e.2 < 4 := by subst hd; exact hm.1
+
+theorem ipower_succ (m : Mono) (hm : m.Unitary) (k : Int) : ipower m (k + 1) = mul (ipower m k) m := by
+  rcases k with n | n
+  · rw [Int.ofNat_eq_natCast]
+    rw [show ((n : Int) + 1 : Int) = ((n + 1 : Nat) : Int) by omega, ipower_nonneg, ipower_nonneg, npow]
+  · rw [show (Int.negSucc n : Int) = -((n + 1 : Nat) : Int) by omega, ipower_neg _ _ (by omega), npow,
+      mul_assoc _ _ _ (by rw [dagger_length]; exact hm.rows), mul_dagger_left m hm]
+    have h1 := mul_identity_right (npow (dagger m) n) (npow_phase_lt _ n)
+    rw [npow_length, dagger_length] at h1
+    rw [h1]
+    cases n with
+    | zero => simp [ipower, npow, dagger_length]
+    | succ n =>
+      rw [show (-((n + 1 + 1 : Nat) : Int) + 1 : Int) = -((n + 1 : Nat) : Int) by omega,
+        ipower_neg _ _ (by omega)]
+
+theorem ipower_pred (m : Mono) (hm : m.Unitary) (k : Int) :
+    ipower m (k - 1) = mul (ipower m k) (dagger m) := by
+  rcases k with n | n
+  · cases n with
+    | zero =>
+      rw [Int.ofNat_eq_natCast,
+        show (((0 : Nat) : Int) - 1 : Int) = -((1 : Nat) : Int) by omega, ipower_neg _ _ (by omega)]
+      simp [ipower, npow, dagger_length]
+    | succ n =>
+      rw [Int.ofNat_eq_natCast,
+        show (((n + 1 : Nat) : Int) - 1 : Int) = (n : Int) by omega, ipower_nonneg,
+        ipower_nonneg, npow,
+        mul_assoc _ _ _ (by intro e he; exact (dagger_unitary m hm).rows e he |> fun h => by rwa [dagger_length] at h),
+        mul_dagger_right m hm]
+      have h1 := mul_identity_right (npow m n) (npow_phase_lt _ n)
+      rw [npow_length] at h1
+      rw [h1]
+  · rw [show (Int.negSucc n - 1 : Int) = -((n + 1 + 1 : Nat) : Int) by omega, ipower_neg _ _ (by omega),
+      show (Int.negSucc n : Int) = -((n + 1 : Nat) : Int) by omega, ipower_neg _ _ (by omega)]
+    rfl
+
+/-- **group law**: `ipower m` is a homomorphism `ℤ → matrices` -/
+theorem ipower_add (m : Mono) (hm : m.Unitary) (a b : Int) :
+    ipower m (a + b) = mul (ipower m a) (ipower m b) := by
+  have hpos : ∀ n : Nat, ipower m (a + (n : Int)) = mul (ipower m a) (ipower m (n : Int)) := by
+    intro n
+    induction n with
+    | zero =>
+      have h1 := mul_identity_right (ipower m a) (fun e he => ((ipower_unitary m hm a).1 e he).2)
+      rw [ipower_length] at h1
+      simp only [Int.natCast_zero, Int.add_zero]
+      rw [show ipower m 0 = identity m.length by simp [ipower, npow], h1]
+    | succ n ih =>
+      rw [show (a + ((n + 1 : Nat) : Int) : Int) = (a + (n : Int)) + 1 by omega, ipower_succ m hm, ih,
+        show (((n + 1 : Nat) : Int) : Int) = (n : Int) + 1 by omega, ipower_succ m hm,
+        mul_assoc _ _ _ (by rw [ipower_length]; exact hm.rows)]
+  have hneg : ∀ n : Nat, ipower m (a - (n : Int)) = mul (ipower m a) (ipower m (-(n : Int))) := by
+    intro n
+    induction n with
+    | zero =>
+      have := hpos 0
+      simpa using this
+    | succ n ih =>
+      rw [show (a - ((n + 1 : Nat) : Int) : Int) = (a - (n : Int)) - 1 by omega, ipower_pred m hm, ih,
+        show (-((n + 1 : Nat) : Int) : Int) = -(n : Int) - 1 by omega, ipower_pred m hm,
+        mul_assoc _ _ _ (by
+          rw [ipower_length]; intro e he
+          have := (dagger_unitary m hm).rows e he
+          rwa [dagger_length] at this)]
+  rcases b with n | n
+  · exact hpos n
+  · have := hneg (n + 1)
+    rw [show (a + Int.negSucc n : Int) = a - ((n + 1 : Nat) : Int) by omega,
+      show (Int.negSucc n : Int) = -((n + 1 : Nat) : Int) by omega]
+    exact this
+
+/-- `ipower m (-k)` is the inverse of `ipower m k` -/
+theorem ipower_neg_inverse (m : Mono) (hm : m.Unitary) (k : Int) :
+    mul (ipower m (-k)) (ipower m k) = identity m.length := by
+  rw [← ipower_add m hm, show (-k + k : Int) = 0 by omega]
+  simp [ipower, npow]
+
 end BqVerif.Kron
